@@ -275,7 +275,7 @@ func run(args []string) error {
 	}
 
 	depth := 4
-	maxExpand := 1000
+	maxExpand := 600
 	if f.Tier == "thorough" || f.Tier == "search" {
 		depth = 6
 		maxExpand = 1200000
@@ -320,7 +320,7 @@ func run(args []string) error {
 		}
 		pre := replay(n.path).VerifC24Dump()
 		preKey := key(pre)
-		var trans, results []string
+		var trans, results, changes []string
 		for _, oper := range universe {
 			c := replay(n.path)
 			e, ok := apply(c, oper)
@@ -331,7 +331,12 @@ func run(args []string) error {
 			if postKey != preKey {
 				postS = Some(dumpCoq(post))
 			}
-			trans = append(trans, in.Ref("T_", "res err * option st * bool", Tuple(e, postS, B(fr))))
+			// per state: the (error class, fresh) vector of all operations, shared between
+			// states by name, and the few operations that changed the maps with the new maps
+			trans = append(trans, in.Ref("T_", "res err * bool", Tuple(e, B(fr))))
+			if postS != "None" {
+				changes = append(changes, Tuple(fmt.Sprint(len(trans)-1), dumpCoq(post)))
+			}
 			cj := map[string]interface{}{"path": opsStr(n.path), "op": oper.String(), "result": e, "fresh": fr}
 			results = append(results, e)
 			o.Count(preKey+"|"+oper.String(), ok || postKey != preKey)
@@ -346,13 +351,13 @@ func run(args []string) error {
 				queue = append(queue, node{np, n.d + 1})
 			}
 		}
-		bfs = append(bfs, Tuple(opsCoq(n.path), dumpCoq(pre), List(trans)))
+		bfs = append(bfs, Tuple(opsCoq(n.path), dumpCoq(pre), in.Ref("E_", "list (res err * bool)", List(trans)), List(changes)))
 		bfsStates = append(bfsStates, map[string]interface{}{"path": opsStr(n.path), "results": strings.Join(results, "|")})
 	}
 	if f.Extra == "count" {
 		fmt.Println("states expanded per depth:", perDepth, "truncated:", truncated)
 	}
-	o.Def("cases_bfs", "list op * st * list (res err * option st * bool)", bfs)
+	o.Def("cases_bfs", "list op * st * list (res err * bool) * list (Z * st)", bfs)
 
 	// ---------------- random sequences (length 40, then every connection removed)
 	nseq := f.Budget(60, 1500)
